@@ -122,7 +122,7 @@ def gen_cli_scenario(rng, sid, base, variant, collisions):
     scn = A.Scenario(sid, base, [{"content": content, "members": members}],
                      move_dir={"outside": "out", "inside": "w/zz_out", "relative": "out_rel", "other_mount": "out",
                                "via_missing": "out_rel", "via_missing2": "out_rel", "via_existing": "out_rel",
-                               "via_missing_other_mount": "out_rel"}[variant])
+                               "via_missing_other_mount": "out_rel", "via_link": "far/away/out_rel"}[variant])
     scn.fake_mount = variant in ("other_mount", "via_missing_other_mount")     # hook FCLONES_VERIF_MOUNTS: DIR on "another file system" => use_rename = false
     if variant == "relative":
         scn.cwd = scn.base
@@ -132,12 +132,19 @@ def gen_cli_scenario(rng, sid, base, variant, collisions):
         # exists: the class of the defect fixed by 730c76a) or an existing one
         scn.cwd = scn.base
         scn.dir_cli = {"via_missing": "newdir/../out_rel", "via_missing_other_mount": "newdir/../out_rel",
-                       "via_missing2": "na/nb/../../out_rel", "via_existing": "w/../out_rel"}[variant]
+                       "via_missing2": "na/nb/../../out_rel", "via_existing": "w/../out_rel", "via_link": "lnk/../out_rel"}[variant]
+        if variant == "via_link":
+            # lnk -> far/away/inner: the kernel resolves lnk/../out_rel to far/away/out_rel (NOT to ./out_rel): lookup and action
+            # must agree on that place; the collisions sit there
+            scn.dir_phys = os.path.join(scn.base, "far/away/out_rel")
+            scn.model_skip = True
         if "missing" in variant:
             # the lexical norm of FsModel.v treats newdir/.. as if newdir existed: the extra mkdir(newdir) of the real run and
             # the directory it leaves behind are outside the model; these runs are evaluated by the model-free oracle only
             scn.model_skip = True
     extra = []
+    if variant == "via_link":
+        extra += [("dir", "far/away/inner"), ("symlink", "lnk", "far/away/inner")]
     for i, col in enumerate(collisions):
         a = os.path.join(scn.root, "%s/v%d" % (vdirs[i % 4], i))
         rel = scn.move_dir + a                     # DIR/<absolute path without the root>
@@ -153,6 +160,11 @@ def gen_cli_scenario(rng, sid, base, variant, collisions):
         elif col == "empty_dirs":
             # every directory on the way to the target exists already, EMPTY: nothing of it may disappear, whatever fails
             e = ("dir", os.path.dirname(rel))
+            if e not in extra:
+                extra.append(e)
+        elif col == "private_dirs":
+            # the directory the target goes into exists already with permission bits of its own (0700 / 0750): they stay as they are
+            e = ("dir", os.path.dirname(rel), 0o700 if i % 2 == 0 else 0o750)
             if e not in extra:
                 extra.append(e)
         elif col == "empty_dir_root":
@@ -229,6 +241,9 @@ def cli_oracle(c):
             e1 = inv1.get(p)
             if e[0] == "D":
                 ok = e1 is not None and e1[0] == "D"
+                if ok and e1[1:] != e[1:]:
+                    bad.append(({"kind": "existing_directory_mode_altered"},
+                                "the directory %s existed under DIR and its permission bits changed: %o -> %o" % (p, e[1], e1[1])))
             elif e[0] == "L":
                 ok = e1 == e
                 t = e[1] if e[1].startswith("/") else os.path.join(os.path.dirname(p), e[1])
@@ -300,13 +315,13 @@ def run(ctx):
                   ("dangling", "dangling"), ("file", "link_to_file"), ("dangling_into_dir", "none"), ("dir", "dangling_into_dir"),
                   ("link_to_source_abs", "none"), ("link_to_source_rel", "hardlink_of_source"), ("hardlink_of_source", "link_to_source_abs"),
                   ("symlinked_parent", "symlinked_parent"),
-                  ("empty_dirs", "empty_dirs"), ("empty_dirs", "file"), ("empty_dir_root", "none"), ("sibling_part", "file")]
+                  ("empty_dirs", "empty_dirs"), ("empty_dirs", "file"), ("private_dirs", "none"), ("private_dirs", "file"), ("empty_dir_root", "none"), ("sibling_part", "file")]
         if not ctx.quick:
             combos += [(x, y) for x in COLLISIONS + SELF_COLLISIONS[:3] for y in COLLISIONS + SELF_COLLISIONS[:3] if (x, y) not in combos]
         n = 0
         via_combos = [("file", "none"), ("none", "none"), ("dir", "dangling"), ("link_to_file", "file"), ("sibling_part", "file")]
         for variant in ("outside", "inside", "relative", "other_mount", "via_missing", "via_missing2", "via_existing",
-                        "via_missing_other_mount"):
+                        "via_missing_other_mount", "via_link"):
             for col in (combos if not variant.startswith("via_") or not ctx.quick else via_combos):
                 if variant == "inside" and "hardlink_of_source" in col:
                     continue        # a hard link inside the scanned tree would itself be a member of the group
@@ -344,7 +359,7 @@ def run(ctx):
         for sig, text in cli_oracle(c):
             ctx.violation(sig, "C18 violated by the implementation: " + text, payload(), found_input=True)
         if getattr(c.scn, "model_skip", False):
-            ctx.bump("cli_correspondence_only(outside_the_model)", "DIR_through_a_missing_directory" if c.variant.startswith("via_")
+            ctx.bump("cli_correspondence_only(outside_the_model)", "DIR_through_a_symlink_and_dotdot" if c.variant == "via_link" else "DIR_through_a_missing_directory" if c.variant.startswith("via_")
                      else "symlinked_parent_directory")
             continue
         if c.extra.get("abstraction_error"):
